@@ -177,6 +177,41 @@ theorem C15_checksum_law (sum : Int) :
     (sum + (128 - sum % 128) % 128) % 128 = 0 ∧ 0 ≤ (128 - sum % 128) % 128 ∧ (128 - sum % 128) % 128 < 128 := by
   omega
 
+/-- inside a checksum group the bytes are copied and summed; the closing marker writes the byte that makes the sum 0 modulo 128 -/
+theorem sysexGo_group (g : List Int) (hg : ∀ x ∈ g, 0 ≤ x ∧ x < 128) (rest : List Int) : ∀ (sum : Int),
+    sysexGo true sum (g ++ -2 :: rest) =
+      g.map Int.toNat ++ ((128 - (sum + g.foldl (· + ·) 0) % 128) % 128).toNat :: sysexGo false (sum + g.foldl (· + ·) 0) rest := by
+  induction g with
+  | nil => intro sum; simp [sysexGo]
+  | cons x r ih =>
+    intro sum
+    obtain ⟨h0, h1⟩ := hg x List.mem_cons_self
+    have hr : ∀ y ∈ r, 0 ≤ y ∧ y < 128 := fun y hy => hg y (List.mem_cons_of_mem _ hy)
+    have hx2 : ¬ (x = -2) := by omega
+    have hx1 : ¬ (x = -1) := by omega
+    have hu : u8 x = x.toNat := by unfold u8; omega
+    have hf : ∀ (a : Int) (l : List Int), l.foldl (· + ·) a = a + l.foldl (· + ·) 0 := by
+      intro a l
+      induction l generalizing a with
+      | nil => simp
+      | cons y t iht => simp only [List.foldl_cons]; rw [iht (a + y), iht (0 + y)]; omega
+    simp only [List.cons_append, sysexGo, hx2, hx1, Bool.true_and, decide_false, Bool.false_eq_true, if_false, if_true, hu, List.map_cons,
+      List.foldl_cons]
+    rw [ih hr (sum + x), hf (0 + x) r]
+    simp only [Int.zero_add, Int.add_assoc]
+
+/-- **every checksum group of a SysEx gets its own Roland checksum**: a group `{g}` (bytes 0..127) is written as its bytes followed by
+    the byte that makes their sum a multiple of 128 — whatever groups came before it -/
+theorem C15_sysex_group_checksum (flag : Bool) (sum : Int) (g : List Int) (hg : ∀ x ∈ g, 0 ≤ x ∧ x < 128) (rest : List Int) :
+    ∃ tail, sysexGo flag sum (-1 :: g ++ -2 :: rest) = g.map Int.toNat ++ ((128 - (g.foldl (· + ·) 0) % 128) % 128).toNat :: tail ∧
+      (g.foldl (· + ·) 0 + (128 - (g.foldl (· + ·) 0) % 128) % 128) % 128 = 0 := by
+  refine ⟨sysexGo false (0 + g.foldl (· + ·) 0) rest, ?_, by omega⟩
+  have h1 : ¬ ((-1 : Int) = -2) := by decide
+  rw [List.cons_append, sysexGo]
+  simp only [h1, decide_false, Bool.and_false, Bool.false_eq_true, if_false, if_true]
+  rw [sysexGo_group g hg rest 0]
+  simp
+
 /-- text cut: the kept text is a prefix… -/
 theorem C15_text_cut_prefix (cs : List Nat) : ∀ cnt, ∃ r, cs = metaTextCut cnt cs ++ r := by
   induction cs with
